@@ -478,6 +478,76 @@ func main() {
 			e.Bool("csNormalizesInvalid", norm, "toLowerIfCaseInsensitive: the case-sensitive branch replaces invalid UTF-8 (same fact as C11's)")
 		}
 
+		// ---- where a processor gets its drifts from: constructor parameters, field initialisers, every later
+		// assignment to the two fields (any method), and what getProcessor does with a new / a pooled processor
+		if pf2, err := r.Load("proxy/bulk/processor.go"); err == nil {
+			var evs []string
+			for _, d := range pf2.AST.Decls {
+				fd, ok := d.(*ast.FuncDecl)
+				if !ok || fd.Body == nil {
+					continue
+				}
+				var params []string
+				if fd.Type.Params != nil {
+					for _, p := range fd.Type.Params.List {
+						for _, n := range p.Names {
+							params = append(params, n.Name)
+						}
+					}
+				}
+				hit := false
+				var local []string
+				ast.Inspect(fd.Body, func(n ast.Node) bool {
+					switch x := n.(type) {
+					case *ast.KeyValueExpr:
+						k := pf2.Render(x.Key)
+						if k == "drift" || k == "futureDrift" {
+							local = append(local, k+": "+pf2.Render(x.Value))
+							hit = true
+						}
+					case *ast.AssignStmt:
+						for i, l := range x.Lhs {
+							ls := pf2.Render(l)
+							if strings.HasSuffix(ls, ".drift") || strings.HasSuffix(ls, ".futureDrift") {
+								if i < len(x.Rhs) {
+									local = append(local, ls+" = "+pf2.Render(x.Rhs[i]))
+								}
+								hit = true
+							}
+						}
+					}
+					return true
+				})
+				if hit {
+					evs = append(evs, fd.Name.Name+"("+strings.Join(params, ", ")+")")
+					evs = append(evs, local...)
+				}
+			}
+			e.Strs("driftWiring", evs, "processor.go: every function that sets the processor's drift fields, its parameters and the assignments")
+		} else {
+			e.Missing("driftWiring", err)
+		}
+		if inf2, err := r.Load("proxy/bulk/ingestor.go"); err != nil {
+			e.Missing("getProcessorCalls", err)
+		} else if fd := inf2.Func("Ingestor", "getProcessor"); fd == nil {
+			e.Missing("getProcessorCalls", "getProcessor not found")
+		} else {
+			var evs []string
+			ast.Inspect(fd.Body, func(n ast.Node) bool {
+				if c, ok := n.(*ast.CallExpr); ok {
+					fn := inf2.Render(c.Fun)
+					if fn == "newBulkProcessor" || strings.HasPrefix(fn, "proc.") || strings.HasPrefix(fn, "procEface.(*processor).") {
+						evs = append(evs, inf2.Render(c))
+					}
+				}
+				if r, ok := n.(*ast.ReturnStmt); ok && len(r.Results) == 1 {
+					evs = append(evs, "return "+inf2.Render(r.Results[0]))
+				}
+				return true
+			})
+			e.Strs("getProcessorCalls", evs, "Ingestor.getProcessor: calls that configure a processor, and what is returned")
+		}
+
 		// ---- processor.go: documentDelayed translated, Process time selection
 		pf, err := r.Load("proxy/bulk/processor.go")
 		if err != nil {
